@@ -81,7 +81,11 @@ def build(spec, picker=None, net=None):
             net = TraceStochastic(1e-5, 1e-7, spec["early"])
         else:
             net = TraceStochastic(early_departure=spec["early"])
-        for sid in ids:
+        for k, sid in enumerate(ids):
+            if spec.get("look_after") is not None and k == spec["look_after"] % len(ids):
+                # the car park is built in stages: free spaces are looked up before the last
+                # row of stations is registered
+                net.available_evses()
             net.register_evse(EVSE(sid, max_rate=32.0), V, 0)
         if spec["constrained"]:
             net.add_constraint(Current(list(ids)), 32.0 * len(ids), name="aggregate")
@@ -287,6 +291,8 @@ def judge(spec, net, sim, evs, picker, rec, base):
         labels.add("declared_registered_station")
     if "" in ids:
         labels.add("station_id_is_the_empty_string")
+    if spec.get("look_after") is not None:
+        labels.add("free_spaces_looked_up_before_all_stations_were_registered")
     return labels
 
 
@@ -343,6 +349,7 @@ def cases(draw):
         "seed": draw(st.integers(0, 10 ** 6)),
         "second_run": draw(st.integers(0, 2)) == 0,
         "positional_args": draw(st.booleans()),
+        "look_after": draw(st.sampled_from([None, None, 0, 1, 2, 3])),
     }
 
 
